@@ -176,6 +176,23 @@ pub fn member_productions(types: &[(String, TypeRef)], reduced: bool) -> Vec<Mem
 /// component-level productions: each kind once in A and once in B
 pub fn component_states() -> Vec<State> {
     let mut out = vec![];
+    // default namespace = target namespace, references unprefixed, and the imported namespace
+    // declares components with the SAME local names
+    {
+        let mut s = seed();
+        s.files[0].default_ns = Some(NS_A.into());
+        s.files[1].comps.push(complex("Leaf", vec![el("LeafOfB", TypeRef::b("long"))]));
+        s.files[1].comps.push(anon_element("Note", vec![el("NoteOfB", TypeRef::b("string"))]));
+        s.files[0].comps.push(anon_element("Note", vec![el("NoteOfA", TypeRef::b("int"))]));
+        let bare = |n: &str| QName { ns: NS_A.into(), local: n.into(), prefer: Some(String::new()) };
+        s.files[0].comps.push(Comp::Complex(ComplexType {
+            name: "DerivedUnprefixed".into(),
+            base: Some(bare("Leaf")),
+            seq: Some(Seq::of(vec![el("Own", TypeRef::Named(bare("Code"))), Particle::Ref(ElemRef { target: bare("Note"), min: 0, max: Max::N(1) })])),
+            ..Default::default()
+        }));
+        out.push(State { label: "add complexType with unprefixed base/type/ref under a default namespace (same local names in the imported namespace)".into(), depth: 1, set: s });
+    }
     for (file, ns, tag) in [(0usize, NS_A, "A"), (1usize, NS_B, "B")] {
         let comps: Vec<(String, Comp)> = vec![
             (format!("add complexType in {tag}"), complex(&format!("Extra{tag}"), vec![el("X", TypeRef::b("int"))])),
